@@ -580,7 +580,7 @@ static void run_base(const fc_desc* d, unsigned di, uint64_t seed, const sk_mask
 			return;
 		if (rc[v] != ERR_OK)
 		{
-			sk_fault(out, "%s: generated valid call failed with %u (descriptor bug)", d->name, (unsigned)rc[v]);
+			sk_fault(out, "%s: generated valid call failed with %u (descriptor bug, or a functional self-check of the descriptor failed)", d->name, (unsigned)rc[v]);
 			return;
 		}
 		if (v == 0)
@@ -632,6 +632,7 @@ static void init(const sk_opts* o)
 	add_table(fc_proto, fc_proto_n);
 	add_table(fc_math, fc_math_n);
 	add_table(fc_math2, fc_math2_n);
+	add_table(fc_ww, fc_ww_n);
 	add_table(fc_other, fc_other_n);
 	add_table(fc_der, fc_der_n);
 	add_table(fc_params, fc_params_n);
